@@ -270,7 +270,7 @@ int g_ens_n, g_ens_q[2], g_ens_line[2], g_ens_col[2], g_ens_t[2], g_ens_kind[2];
 int g_sim_n, g_sim_gate, g_sim_q0, g_sim_q1, g_sim_t, g_sim_bit; double g_sim_theta; _Bool g_sim_raised;
 int g_mark_n, g_mark_q, g_mark_t, g_unmark_n, g_unmark_q, g_unmark_t, g_rec_n, g_rec_bit; bl_ast g_rec_node;
 int g_total_sim;                       /* simulator calls for ALL elements */
-Value g_q;                             /* ghost: what eval(sub-expression) returned */
+size_t g_lm_size0; Value g_q;                             /* ghost: what eval(sub-expression) returned */
 enum { GATE_MEASURE = 100, GATE_RESET = 101, ENS_ACTIVE = 1, ENS_EXISTS = 2 };
 static inline int tick(void) { if (g_clock < 1000000) g_clock = g_clock + 1; return g_clock; }
 static inline void qev_ens(int kind, int q, int line, int col) {
@@ -305,11 +305,13 @@ __CPROVER_requires(bl_exc == 0)
 __CPROVER_assigns(bl_exc, bl_exc_line, bl_exc_col, g_q)
 __CPROVER_ensures(bl_exc == 0 || bl_exc == EXC_RT)
 __CPROVER_ensures(__CPROVER_return_value.qubitArray.size <= VCAP && __CPROVER_return_value.type == g_q.type && __CPROVER_return_value.qubit == g_q.qubit && __CPROVER_return_value.qubitArray.size == g_q.qubitArray.size)
-__CPROVER_ensures(ge >= VCAP || __CPROVER_return_value.qubitArray.data[ge] == g_q.qubitArray.data[ge])
+__CPROVER_ensures(__CPROVER_return_value.qubitArray.data[0] == g_q.qubitArray.data[0] && __CPROVER_return_value.qubitArray.data[1] == g_q.qubitArray.data[1] && __CPROVER_return_value.qubitArray.data[2] == g_q.qubitArray.data[2] && __CPROVER_return_value.qubitArray.data[3] == g_q.qubitArray.data[3] && __CPROVER_return_value.qubitArray.data[4] == g_q.qubitArray.data[4] && __CPROVER_return_value.qubitArray.data[5] == g_q.qubitArray.data[5] && __CPROVER_return_value.qubitArray.data[6] == g_q.qubitArray.data[6] && __CPROVER_return_value.qubitArray.data[7] == g_q.qubitArray.data[7])
 ;
 #endif
 #define FRESH_RECORDS (g_clock == 0 && g_ens_n == 0 && !g_ens_raised && g_sim_n == 0 && !g_sim_raised && g_mark_n == 0 && g_unmark_n == 0 && g_rec_n == 0 && g_total_sim == 0)
 #define LM ev_m_lastMeasurement
+#define GE_DISTINCT(arr) ((0 == ge || 0 >= (arr).size || (arr).data[0] != (arr).data[ge < VCAP ? ge : 0]) && (1 == ge || 1 >= (arr).size || (arr).data[1] != (arr).data[ge < VCAP ? ge : 0]) && (2 == ge || 2 >= (arr).size || (arr).data[2] != (arr).data[ge < VCAP ? ge : 0]) && (3 == ge || 3 >= (arr).size || (arr).data[3] != (arr).data[ge < VCAP ? ge : 0]) && (4 == ge || 4 >= (arr).size || (arr).data[4] != (arr).data[ge < VCAP ? ge : 0]) && (5 == ge || 5 >= (arr).size || (arr).data[5] != (arr).data[ge < VCAP ? ge : 0]) && (6 == ge || 6 >= (arr).size || (arr).data[6] != (arr).data[ge < VCAP ? ge : 0]) && (7 == ge || 7 >= (arr).size || (arr).data[7] != (arr).data[ge < VCAP ? ge : 0]))
+#define INLM(q) ((q) >= 0 && (q) < (int)LM.size)
 """
 RET = '__CPROVER_return_value'
 
@@ -376,20 +378,23 @@ CONTRACTS = {
     'measure_stmt': {
         'contract': [
             R('bl_exc == 0 && FRESH_RECORDS && LM.size <= VCAP && ge < VCAP'),
-            A(REC + ', g_cur_elem, __CPROVER_object_upto(ev_m_lastMeasurement.data, VCAP * sizeof(int))'),
+            A(REC + ', g_cur_elem, g_lm_size0, __CPROVER_object_upto(ev_m_lastMeasurement.data, VCAP * sizeof(int))'),
             E('exec.measure.only_located_runtime_errors', 'bl_exc == 0 || bl_exc == EXC_RT', ['C12', 'C06']),
             E('exec.measure.scalar.lock_then_simulator_then_flag', '(bl_exc == 0 && g_q.type != BL_QubitArray) ==> (' + (MEASURED_OK % AT_CALL(0, 'meas_line', 'meas_column')).replace('QID', 'g_q.qubit') + ' && g_total_sim == 1 && ((g_q.qubit >= 0 && g_q.qubit < (int)LM.size) ==> LM.data[g_q.qubit] == g_sim_bit))', ['C06', 'C02']),
             E('exec.measure.array.every_element_lock_then_simulator_then_flag', '(bl_exc == 0 && g_q.type == BL_QubitArray && ge < g_q.qubitArray.size) ==> ' + (MEASURED_OK % AT_CALL(0, 'meas_line', 'meas_column')).replace('QID', 'g_q.qubitArray.data[ge]'), ['C06', 'C02']),
+            E('exec.measure.array.tracked_bit_is_the_simulators_bit', '(bl_exc == 0 && g_q.type == BL_QubitArray && ge < g_q.qubitArray.size && GE_DISTINCT(g_q.qubitArray) && INLM(g_q.qubitArray.data[ge])) ==> LM.data[g_q.qubitArray.data[ge]] == g_sim_bit', ['C02', 'C17']),
             E('exec.measure.array.one_measurement_per_element', '(bl_exc == 0 && g_q.type == BL_QubitArray) ==> (g_total_sim >= 0 && (size_t)g_total_sim == g_q.qubitArray.size)', ['C02', 'C05']),
             E('exec.measure.refused_element_is_not_measured', 'g_ens_raised ==> (g_sim_n == 0 && g_mark_n == 0 && bl_exc == EXC_RT && bl_exc_line == meas_line && bl_exc_col == meas_column)', ['C06']),
         ],
-        'prologue': 'g_cur_elem = ge;',
+        'prologue': 'g_cur_elem = ge; g_lm_size0 = LM.size;',
         'loops': {
             0: {'assigns': 'idx, g_cur_elem, __CPROVER_object_upto(ev_m_lastMeasurement.data, VCAP * sizeof(int)), ' + REC.replace(', g_q', ''), 'ghost_in_bounded': True,
                 'body_begin': 'g_cur_elem = (size_t)idx;',
                 'invariants': [('measure_stmt.loop.bounds', 'idx >= 0 && (size_t)idx <= q.qubitArray.size && bl_exc == 0 && g_total_sim == idx && g_clock >= 0 && g_clock <= 3 * idx && !g_ens_raised && !g_sim_raised'),
                                ('measure_stmt.loop.element_done', '((size_t)idx > ge) ==> ' + (MEASURED_OK % AT_CALL(0, 'meas_line', 'meas_column')).replace('QID', 'q.qubitArray.data[ge]')),
                                ('measure_stmt.loop.element_pending', '((size_t)idx <= ge) ==> (g_ens_n == 0 && g_sim_n == 0 && g_mark_n == 0 && !g_ens_raised)'),
+                               ('measure_stmt.loop.element_tracked', '((size_t)idx > ge && ge < q.qubitArray.size && GE_DISTINCT(q.qubitArray) && INLM(q.qubitArray.data[ge])) ==> LM.data[q.qubitArray.data[ge]] == g_sim_bit'),
+                               ('measure_stmt.loop.table_size_kept', 'LM.size == g_lm_size0'),
                                ('measure_stmt.loop.times', 'g_ens_n >= 0 && g_sim_n >= 0 && g_mark_n >= 0 && g_unmark_n == 0 && g_rec_n == 0')],
                 'decreases': 'q.qubitArray.size - idx'},
         },
